@@ -160,7 +160,7 @@ theorem step_prop (s : Inst) (c : String) (a : Addr) (d : PropData) (f : Faults)
 
 theorem signAtt_approved_eq {s : Inst} {c : String} {a : Addr} {d : AttData} {f : Faults}
     {acct : Account} {db' : Db} {root : Bytes}
-    (hwf : d.wellFormed = true) (hpc : preCheck s.cfg c a opAttest = .ok acct)
+    (hwf : d.wellFormed = true) (hpc : preCheck s.cfg c a opAttest f.lockStateFail = .ok acct)
     (hon : onAttest s.db acct.pubkey d.req f = (.approved, db')) (hr : d.signingRoot = some root) :
     signAtt s c a d f false =
       ({ s with db := db', attLog := s.attLog ++ [(acct.pubkey, d)] }, ⟨.succeeded, some root⟩) := by
@@ -169,7 +169,7 @@ theorem signAtt_approved_eq {s : Inst} {c : String} {a : Addr} {d : AttData} {f 
 
 theorem signAtt_denied_eq {s : Inst} {c : String} {a : Addr} {d : AttData} {f : Faults}
     {acct : Account} {db' : Db}
-    (hwf : d.wellFormed = true) (hpc : preCheck s.cfg c a opAttest = .ok acct)
+    (hwf : d.wellFormed = true) (hpc : preCheck s.cfg c a opAttest f.lockStateFail = .ok acct)
     (hon : onAttest s.db acct.pubkey d.req f = (.denied, db')) :
     signAtt s c a d f false = ({ s with db := db' }, ⟨.denied, none⟩) := by
   unfold signAtt
@@ -177,7 +177,7 @@ theorem signAtt_denied_eq {s : Inst} {c : String} {a : Addr} {d : AttData} {f : 
 
 theorem signProp_approved_eq {s : Inst} {c : String} {a : Addr} {d : PropData} {f : Faults}
     {acct : Account} {db' : Db} {root : Bytes}
-    (hwf : d.wellFormed = true) (hpc : preCheck s.cfg c a opPropose = .ok acct)
+    (hwf : d.wellFormed = true) (hpc : preCheck s.cfg c a opPropose f.lockStateFail = .ok acct)
     (hon : onPropose s.db acct.pubkey { domain := d.domain.getD [], slot := d.slot } f = (.approved, db'))
     (hr : d.signingRoot = some root) :
     signProp s c a d f false =
@@ -187,7 +187,7 @@ theorem signProp_approved_eq {s : Inst} {c : String} {a : Addr} {d : PropData} {
 
 theorem signProp_denied_eq {s : Inst} {c : String} {a : Addr} {d : PropData} {f : Faults}
     {acct : Account} {db' : Db}
-    (hwf : d.wellFormed = true) (hpc : preCheck s.cfg c a opPropose = .ok acct)
+    (hwf : d.wellFormed = true) (hpc : preCheck s.cfg c a opPropose f.lockStateFail = .ok acct)
     (hon : onPropose s.db acct.pubkey { domain := d.domain.getD [], slot := d.slot } f = (.denied, db')) :
     signProp s c a d f false = ({ s with db := db' }, ⟨.denied, none⟩) := by
   unfold signProp
